@@ -156,6 +156,7 @@ def programs():
         "t%u(1)%v(2, 3) = w%x",
         "character :: c1*(n+1) = 'x', c2*4 = 'abcd'",
         "Alpha = Beta(Gamma, 1) + dELTA",
+        "y = f('p q', 'p q')", "z = max(1.0e3, w, 1.0e3)", "call s(('a b', 'a b'), g(1.5d0, 1.5d0, 'a b'))", "v = h(\"it's\", \"it's\") + 2.0e0 * (2.0e0 + 2.0e0)",
         "x = ((a+b)) * (a+b)", "y = (a+b) * ((a+b))", "z = f((a+b)) + (a+b)", "s = \"'a b'\" // 'a b'", "w = (a+b) * (a+b) + 'p q' // 'p q'", "v = g((1, 2), (1, 2)) + ((1, 2))",
         "u = 'a+b' // c(a+b) // \"a+b\"", "r = 1.0e3 * (1.0e3) + h(1.0e3)",
         "CALL MySub(ArgOne, argTwo)",
